@@ -9,9 +9,11 @@ from .env import LoggerStub
 def run_scenario(sc, strategy, max_steps=60000):
     """sc: dict(sensors=[interval...] (seconds), pollinterval=reconnect interval, close_at=t, refuse=k,
                callbacks=n, users=[[('sleep', d) | ('comm', gid)...]], horizon=seconds, tcp=bool)"""
+    sc = dict(sc, eps=2.0 ** -16)
     w = World(sc, strategy, max_steps)
     s = w.sched
     dev = w.dev
+    dev.refuse = 0          # sc['refuse'] counts from the outage on (see fault)
     counter = {'gid': 100}
     device = make_device(w, sc)
     with w.patch:
